@@ -98,6 +98,8 @@ def monitor(case, impl_line):
 
 def monitor_(case, impl_line):
     """None when the observed answer satisfies the property's clauses for this input, else which clause fails."""
+    if case.startswith("M "): return monitor_etag(case, impl_line)
+    if case.startswith("E "): return monitor_cond(case, impl_line)
     t = case.split()
     if t[0] == "D":
         return monitor_date(case, impl_line)
@@ -236,10 +238,173 @@ def monitor_date(case, impl_line):
     return None
 
 
+
+# ------------------------------------------------------------------ conditional requests (If-None-Match / If-Modified-Since)
+def parse_etag(b):
+    """(weak, opaque) of a grammatical entity-tag (RFC 9110 8.8.3), else None"""
+    weak = b.startswith(b"W/")
+    q = b[2:] if weak else b
+    if len(q) < 2 or q[:1] != b'"' or q[-1:] != b'"': return None
+    if any(c == 0x22 or c < 0x21 or c == 0x7f for c in q[1:-1]): return None
+    return weak, q
+
+
+def parse_inm(v):
+    """'*' | list of (weak, opaque) for a grammatical If-None-Match value (#entity-tag with empty elements allowed), else None.
+    Entity-tags may contain commas inside the quotes."""
+    if v == b"*": return "*"
+    out = []; i = 0; n = len(v); need_comma = False
+    while i < n:
+        c = v[i:i + 1]
+        if c in b" \t": i += 1; continue
+        if c == b",": need_comma = False; i += 1; continue
+        if need_comma: return None
+        j = i + 2 if v[i:i + 2] == b"W/" else i
+        if v[j:j + 1] != b'"': return None
+        k = v.find(b'"', j + 1)
+        if k < 0: return None
+        t = parse_etag(v[i:k + 1])
+        if t is None: return None
+        out.append(t); i = k + 1; need_comma = True
+    return out if out else None
+
+
+def rfc_inm_matches(etag, value, weak_ok):
+    """True/False per RFC 9110 13.1.2 (weak comparison, strong when weak_ok is False); None when etag or value is not grammatical"""
+    e = parse_etag(etag); l = parse_inm(value)
+    if e is None or l is None: return None
+    if l == "*": return True
+    return any(o == e[1] and (weak_ok or (not w and not e[0])) for w, o in l)
+
+
+def monitor_etag(case, impl_line):
+    t = case.split()
+    want = rfc_inm_matches(unhx(t[2]), unhx(t[3]), t[1] == "1")
+    if want is None or impl_line == ("1" if want else "0"): return None
+    return "http_etag_matches(etag %r, If-None-Match %r, %s comparison) says %s, RFC 9110 says %s" % (
+        unhx(t[2]), unhx(t[3]), "weak" if t[1] == "1" else "strong", impl_line, "1" if want else "0")
+
+
+def monitor_cond(case, impl_line):
+    """the property's clause: GET/HEAD on a representation with an entity tag: 304 iff If-None-Match matches (strong when Range is present)
+    or, absent If-None-Match, If-Modified-Since is an HTTP-date not earlier than the modification time"""
+    t = case.split(); fl = t[1]
+    if fl[0] not in "12" or t[4] == "~": return None
+    opt = lambda x: None if x == "~" else (unhx(x) or None)          # an empty field value is no field (the request parser drops it)
+    inm, ims, etag, lmod, lmt = opt(t[2]), opt(t[3]), opt(t[4]), opt(t[5]), int(t[6])
+    if etag is None: return None
+    if inm is not None:
+        want = rfc_inm_matches(etag, inm, fl[1] != "1")
+        if want is None: return None
+    elif ims is not None:
+        if lmod is None: return None
+        v = monitor_date("D %d %s" % (lmt, hx(ims)), "0")       # None iff "not modified since" is (or may be) right
+        v1 = monitor_date("D %d %s" % (lmt, hx(ims)), "1")
+        if v is None and v1 is None: return None                # not a valid date: either answer defensible
+        want = v is None
+    else:
+        want = False
+    got = impl_line == "304"
+    if got != want:
+        return "conditional %s with If-None-Match %r, If-Modified-Since %r on ETag %r, Last-Modified %r (%d): answered %s, RFC 9110 says %s" % (
+            "GET" if fl[0] == "1" else "HEAD", inm, ims, etag, lmod, lmt, impl_line, "304" if want else "no 304")
+    return None
+
+
+def cond_cases(ctx):
+    rng = ctx.rng; thorough = ctx.tier == "thorough"
+    out = []
+    tags = [b'"123"', b'W/"123"', b'"12"', b'"1234"', b'"a,b"', b'""', b'W/""', b'"123,"', b'",123"', b'"x"', b'W/"x"', b'"W/"']
+    seps = [b", ", b",", b" , ", b",,", b"\t,\t", b" ,, "]
+    junk = [b"", b"*", b" *", b"* ", b"*,", b'*, "123"', b'"123", *', b'"123', b'123', b'"123"x', b'x"123"', b'"123" "x"', b'W/', b'W/*', b'w/"123"', b'W/ "123"',
+            b'"x" "123"', b'"x"\t"123"', b'"1"23"', b',', b' ', b'"x","123', b'"123"\t', b'\t"123"', b'"x";"123"', b'W/"123"W/"123"']
+    def value():
+        r = rng.random()
+        if r < 0.12: return rng.choice(junk)
+        k = rng.choice([1, 1, 2, 2, 3, 5])
+        v = rng.choice([b"", b"", b" ", b","]) + rng.choice(seps).join(rng.choice(tags) for _ in range(k)) + rng.choice([b"", b"", b" ", b",", b" ,"])
+        if r > 0.95: v = bytes(c for c in v if rng.random() > 0.06)
+        return v
+    for e in tags + [b"", b"W/", b"123", b'"']:
+        for v in junk + tags:
+            for wk in "01":
+                out.append("M %s %s %s" % (wk, hx(e) if e else "-", hx(v) if v else "-"))
+    for _ in range(30000 if thorough else 4000):
+        out.append("M %s %s %s" % (rng.choice("01"), hx(rng.choice(tags)), hx(value()) or "-"))
+    # the decision: method x Range x If-None-Match x If-Modified-Since x ETag x Last-Modified
+    for _ in range(40000 if thorough else 6000):
+        t = rng.choice([0, 86399, 951782400, 1000000000, 1709251199, 2147483648, rng.randrange(0, 4102444800)])
+        sp = [x for _, x in date_spellings(t)] if 126230400 <= t < 3281904000 else [x for k, x in date_spellings(t) if k != "rfc850"]
+        lmod = sp[0]
+        r = rng.random()
+        if r < 0.35: ims = None
+        elif r < 0.5: ims = lmod
+        elif r < 0.9:
+            dt = rng.choice([-1, 0, 1, -86400, 86400, 3600])
+            t2 = max(0, t + dt)
+            sp2 = [x for k, x in date_spellings(t2) if k != "rfc850" or 126230400 <= t2 < 3281904000]
+            ims = rng.choice(sp2)
+        else: ims = rng.choice(["yesterday", lmod + " ", lmod[:-1], "", lmod.replace("GMT", "UTC")])
+        inm = None if rng.random() < 0.4 else value()
+        etag = None if rng.random() < 0.1 else rng.choice(tags[:6])
+        fl = rng.choice(["10", "10", "11", "20", "21", "00", "01"])
+        tok = lambda x: "~" if x is None else (hx(x if isinstance(x, bytes) else x.encode()) or "-")
+        out.append("E %s %s %s %s %s %d" % (fl, tok(inm), tok(ims), tok(etag), tok(lmod) if rng.random() < 0.95 else "~", t))
+    return out
+
+
+def run_system_conditional(ctx):
+    """the assembled path: mod_staticfile creates ETag / Last-Modified from the file and hands them to http_response_handle_cachable and
+    http_range_rfc7233; judged by the RFC monitor above (entity tags and dates taken from the server's own first answer)"""
+    import srv, os, calendar
+    rng = ctx.rng
+    files = {"/a.txt": b"0123456789" * 10, "/b.bin": bytes(range(256)) * 3, "/empty": b""}
+    s = srv.Server(ctx, "cond15", "", files=files, modules=[], sanitize=(ctx.tier == "thorough"))
+    s.start()
+    n = 0; bad = []
+    try:
+        for path, content in files.items():
+            old = 1000000000 + rng.randrange(0, 500000000)
+            os.utime(os.path.join(s.docroot, path.lstrip("/")), (old, old))
+            st, hs, body, _ = srv.split_response(s.roundtrip(("GET %s HTTP/1.1\r\nHost: x\r\nConnection: close\r\n\r\n" % path).encode()))
+            h = {k.lower(): v for k, v in hs}
+            etag = h.get(b"etag", h.get("etag")); lmod = h.get(b"last-modified", h.get("last-modified"))
+            if isinstance(etag, str): etag = etag.encode("latin-1")
+            if isinstance(lmod, str): lmod = lmod.encode("latin-1")
+            if st != 200 or not etag or not lmod:
+                bad.append("GET %s: status %s, ETag %r, Last-Modified %r (expected 200 with both validators)" % (path, st, etag, lmod)); continue
+            if body != content: bad.append("GET %s: body differs from the file" % path)
+            other = b'"' + etag.strip(b'"')[:-1] + b'"'
+            inms = [None, etag, b"W/" + etag, other, b"*", other + b", " + etag, b"W/" + etag + b" , " + other, other + b"," + other, etag + b"x", etag[:-1], b" " + etag + b" ,"]
+            t = old
+            imss = [None, lmod] + [x.encode() for dt in (-1, 0, 1, -86400, 86400) for k, x in date_spellings(t + dt) if k != "rfc850" or dt == 0] + [b"junk", lmod + b" x"]
+            combos = [(m, r, i, d) for m in ("GET", "HEAD") for r in (False, True) for i in inms for d in imss]
+            if ctx.tier != "thorough": combos = rng.sample(combos, 160)
+            for m, r, inm, ims in combos:
+                req = "%s %s HTTP/1.1\r\nHost: x\r\nConnection: close\r\n" % (m, path)
+                if r: req += "Range: bytes=0-3\r\n"
+                raw = req.encode() + (b"If-None-Match: " + inm + b"\r\n" if inm is not None else b"") + (b"If-Modified-Since: " + ims + b"\r\n" if ims is not None else b"") + b"\r\n"
+                st2, hs2, body2, _ = srv.split_response(s.roundtrip(raw))
+                n += 1
+                case = "E %s%s %s %s %s %s %d" % ("1" if m == "GET" else "2", "1" if r else "0", "~" if inm is None else hx(inm), "~" if ims is None else hx(ims), hx(etag), hx(lmod), old)
+                why = monitor_cond(case, "304" if st2 == 304 else "0")
+                if why: bad.append(why + " (server answered %s)" % st2)
+                elif st2 == 304 and body2: bad.append("304 with a body: %r" % raw)
+                elif st2 not in (304, 200, 206, 416): bad.append("unexpected status %s for %r" % (st2, raw))
+                elif st2 == 206 and m == "GET" and body2 != content[0:4]: bad.append("206 body %r is not bytes 0-3 of the file for %r" % (body2, raw))
+    finally:
+        s.stop()
+    for b in bad[:2]:
+        ctx.violate("cond-system:" + b[:60], "C15 fails on the running server: " + b, dict(kind="system-conditional", why=b))
+    ctx.cov["evaluations"] += n
+    ctx.cov["correspondence"]["conditional_system"] = dict(requests=n, violations=len(bad))
+    return bool(bad)
+
+
 def gen_cases(ctx):
     rng = ctx.rng
     thorough = ctx.tier == "thorough"
-    cases = date_cases(ctx)
+    cases = date_cases(ctx) + cond_cases(ctx)
     dist = dict(exhaustive_1_2_specs=0, three_specs=0, gap_boundary=0, many=0, junk=0, precond=0, parse_only=0)
     content_for = lambda L: bytes((i * 7 + 3) % 251 for i in range(L))
     # (1) exhaustive: all single specs and all pairs over boundary numbers for small lengths
@@ -371,6 +536,20 @@ def run(ctx):
             ctx.violate("range:" + why.split(" ")[0] + ":" + cases[i][:40], "C15 fails on the implementation (model agrees!): %s; input %s" % (why, describe(cases[i])),
                         dict(kind="monitor", case=cases[i], input=describe(cases[i]), impl=out_i[i], why=why))
             break
+    # the conditional-request clauses are judged on every M / E case (cheap), whether or not the model agrees
+    nce = 0; bad = 0
+    for i in range(n):
+        if cases[i][:2] in ("M ", "E "):
+            nce += 1
+            why = monitor(cases[i], out_i[i])
+            if why:
+                bad += 1; found_input = True
+                if bad <= 2:
+                    ctx.violate("cond:" + cases[i][:48], "C15 fails on the implementation: %s; input %s" % (why, describe(cases[i])),
+                                dict(kind="monitor", case=cases[i], input=describe(cases[i]), impl=out_i[i], model=out_m[i], why=why, harness="range_h"))
+    ctx.cov["correspondence"]["conditional"] = dict(cases=nce, rfc_violations=bad, answers_304=sum(1 for i in range(n) if cases[i][:2] == "E " and out_i[i] == "304"),
+                                                    etag_matches=sum(1 for i in range(n) if cases[i][:2] == "M " and out_i[i] == "1"))
+    if run_system_conditional(ctx): found_input = True
     if not ok:
         if not found_input:
             ctx.proof_broken_violation()
@@ -382,6 +561,12 @@ def describe(case):
         return "http_range_parse(%r, len=%s)" % (unhx(t[2]), t[1])
     if t[0] == "D":
         return "http_date_if_modified_since(%r, lmtime=%s)" % (unhx(t[2]), t[1])
+    if t[0] == "M":
+        return "http_etag_matches(etag=%r, value=%r, weak_ok=%s)" % (unhx(t[2]), unhx(t[3]), t[1])
+    if t[0] == "E":
+        o = lambda x: None if x == "~" else unhx(x)
+        return "http_response_handle_cachable(method=%s, range=%s, If-None-Match=%r, If-Modified-Since=%r, ETag=%r, Last-Modified=%r, mtime=%s)" % (
+            {"1": "GET", "2": "HEAD", "0": "POST"}[t[1][0]], t[1][1], o(t[2]), o(t[3]), o(t[4]), o(t[5]), t[6])
     d = dict(flags=t[1], status=t[2], meth=t[3], accept_ranges=t[4], range=t[5], if_range=t[6], etag=t[7], last_mod=t[8], ctype=t[9])
     for k in ("accept_ranges", "range", "if_range", "etag", "last_mod", "ctype"):
         d[k] = None if d[k] == "~" else unhx(d[k]).decode("latin-1")
@@ -392,6 +577,9 @@ def describe(case):
 def replay(ctx, path):
     import json
     obj = json.load(open(path))
+    if obj["replay"].get("kind") == "system-conditional":
+        print("running server, conditional request:", obj["replay"].get("why")); print("(re-run ./check C15 with the same VERIF_SEED to reproduce against the current tree)")
+        return 1
     case = obj["replay"].get("case")
     exe = vlib.cc_harness(ctx, "range_h", link_srcs=LINK)
     model = vlib.model_driver("C15")
